@@ -553,6 +553,57 @@ def run(c):
             viol.append(("jacobi-split" + (":tp%d" % tptype if ntest else ""), "WHFast with gravity=jacobi and gravity=basic disagree after 3 steps by %.3g (N=%d, %d test particles, type %d)" % (errs, n, ntest, tptype),
                          dict(ms=ms, orbits=orb, dt=dt, err=errs, ntest=ntest, testparticle_type=tptype)))
 
+    # ======================================================================= force after an integrator switch
+    # "whichever routine is selected": gravity_ignore_terms left behind by one integrator must not leak into the next
+    SWI = [("whfast", "jacobi", 1), ("whfast", "democraticheliocentric", 2), ("whfast", "whds", 2), ("saba", None, 1), ("eos", None, 2),
+           ("ias15", None, 0), ("leapfrog", None, 0), ("bs", None, 0), ("janus", None, 0)]
+    nsw = 0
+    for ia, (inta, coa, _) in enumerate(SWI[:5]):
+        for ib, (intb, cob, igb) in enumerate(SWI):
+            if (inta, coa) == (intb, cob):
+                continue
+            rng = c.rng.fork()
+            n = rng.randint(3, 6)
+            ms = [1.0] + [10 ** (-rng.uniform(3, 5)) for _ in range(n - 1)]
+            sim = rebound.Simulation()
+            sim.add(m=ms[0])
+            for i in range(1, n):
+                sim.add(m=ms[i], a=1.6 ** (i - 1) * rng.uniform(0.97, 1.03), e=rng.uniform(0, 0.05), inc=rng.uniform(0, 0.05), f=rng.uniform(0, 6.28))
+            sim.move_to_com()
+            sim.dt = 0.05
+            sim.integrator = inta
+            sim.ri_whfast.coordinates = coa or "jacobi"
+            sim.steps(2)
+            sim.synchronize()
+            sim.integrator = intb
+            sim.ri_whfast.coordinates = cob or "jacobi"
+            if intb == "janus":
+                sim.ri_janus.scale_pos = 1e-15; sim.ri_janus.scale_vel = 1e-15
+            sim.dt = 0.05
+            try:
+                sim.steps(1)
+                sim.synchronize()
+            except Exception as ex:
+                viol.append(("switch:crash:%s->%s" % (inta, intb), "switching %s -> %s raised %r" % (inta, intb, ex), dict(first=[inta, coa], second=[intb, cob])))
+                continue
+            clib.reb_simulation_update_acceleration(ctypes.byref(sim))
+            got = read_acc(sim, n)
+            xs = [[sim.particles[i].x, sim.particles[i].y, sim.particles[i].z] for i in range(n)]
+            cfg = dict(N=n, Na=-1, tp=0, ignore=igb, G=1.0, soft=0.0, ms=ms, mkind=0, scale=1.0)
+            want, mag = oracle_direct(cfg, xs, [(0.0, 0.0, 0.0)])
+            q, kq = cmp_acc(got, want, mag)
+            nsw += 1
+            c.count(("switch", inta, coa, intb, cob))
+            hist["switch"] = hist.get("switch", 0) + 1
+            if q > 1.0:
+                key = "switch:%s%s->%s%s" % (inta, ":" + coa if coa else "", intb, ":" + cob if cob else "")
+                if intb == "bs" and int(sim.gravity_ignore) != 0:
+                    key = "FC02c:bs-keeps-gravity_ignore_terms"
+                viol.append((key, "after %s%s -> %s%s on the same simulation the accelerations differ from the pairwise sum the running integrator needs "
+                             "(gravity_ignore_terms=%d, expected %d): particle %d off by %.3g x tolerance" % (inta, "/" + coa if coa else "", intb, "/" + cob if cob else "", int(sim.gravity_ignore), igb, kq, q),
+                             dict(first=[inta, coa], second=[intb, cob], ms=ms, xs=xs, gravity_ignore_terms=int(sim.gravity_ignore), expected=igb, particle=kq, got=got[kq], want=want[kq])))
+    c.cov["integrator_switch_force_checks"] = nsw
+
     # ======================================================================= MERCURIUS (mode 0 / mode 1)
     LNAMES = ["mercury", "C4", "C5", "infinity"]
 
